@@ -225,6 +225,16 @@ bool vh::run_case(std::string const& op, Toks& in, Out& impl, Out& ref)
         op_makepairref<StdLib>(x, y, ref);
         return true;
     }
+    if (op == "sbind") {
+        op_sbind<EtlLib>(impl);
+        op_sbind<StdLib>(ref);
+        return true;
+    }
+    if (op == "getbytype") {
+        op_getbytype<EtlLib>(impl);
+        op_getbytype<StdLib>(ref);
+        return true;
+    }
     if (op == "retref") {
         int which = i();
         op_retref<EtlLib>(which, impl);
